@@ -169,6 +169,12 @@ func (h *NFSProcedureHandler) handleWrite(body io.Reader, reply *RPCReply, authC
 		return nfsErrorWithWcc(reply, mapError(err)), nil
 	}
 
+	// WRITE applies to regular files (RFC 1813). Opening a symbolic link for writing would follow it and
+	// change the link's target, whose cached attributes are not invalidated.
+	if preAttrs.Mode&os.ModeSymlink != 0 {
+		return nfsErrorWithWcc(reply, NFSERR_INVAL), nil
+	}
+
 	n, err := h.server.handler.Write(node, int64(offset), data)
 	if err != nil {
 		if h.server.options.Debug {
